@@ -163,12 +163,11 @@ theorem rwd_ok {fl : Flags} {d : Dict (Fld V R)} (h : WF fl d) :
   | some f => cases f <;> simp_all [getNum, viewNum, whenHas]
 
 theorem prob_ok {fl : Flags} {d : Dict (Fld V R)} (h : WF fl d) :
-    whenHas fl.hasProb (getNum "probability" (d.get? "probability"))
-      = .ok (viewNum (d.get? "probability")) := by
+    getNumOpt "probability" (d.get? "probability") = .ok (viewNum (d.get? "probability")) := by
   have := h.prob
   cases hg : d.get? "probability" with
-  | none => simp_all [getNum, viewNum, whenHas]
-  | some f => cases f <;> simp_all [getNum, viewNum, whenHas]
+  | none => simp_all [getNumOpt, viewNum]
+  | some f => cases f <;> simp_all [getNumOpt, viewNum]
 
 theorem finalize_ok {fl : Flags} {d : Dict (Fld V R)} (h : WF fl d) :
     ∃ d1, finalize fl.rwdsIsList d = .ok d1 ∧ (∀ k, k ≠ "rewards" → d1.get? k = d.get? k)
@@ -3259,12 +3258,23 @@ omit [Subscript V] in
 /-- a reserved key the FIRST interaction lacks is ignored in every later interaction: the loop reads `None` -/
 theorem readRow_ignores {c : Config} {fl : Flags} {d : Dict (Fld V R)} {r : RowIn V R} (h : readRow c fl d = .ok r) :
     (fl.hasContext = false → r.ctx = none) ∧ (fl.hasActions = false → r.acts = none) ∧
-    (fl.hasAction = false → r.offAct = none) ∧ (fl.hasReward = false → r.offRwd = none) ∧ (fl.hasProb = false → r.offPr = none) := by
+    (fl.hasAction = false → r.offAct = none) ∧ (fl.hasReward = false → r.offRwd = none) := by
   simp only [readRow, bind, Except.bind, pure, Except.pure] at h
   repeat' split at h
   all_goals first
     | (simp only [Except.ok.injEq] at h; subst h
-       refine ⟨?_, ?_, ?_, ?_, ?_⟩ <;> intro hf <;> simp_all [whenHas])
+       refine ⟨?_, ?_, ?_, ?_⟩ <;> intro hf <;> simp_all [whenHas])
+    | cases h
+
+omit [Subscript V] in
+/-- the logged probability is read from each interaction itself: present → its value, `None`/absent → `None`,
+whatever the first interaction had -/
+theorem readRow_probability {c : Config} {fl : Flags} {d : Dict (Fld V R)} {r : RowIn V R} (h : readRow c fl d = .ok r) :
+    getNumOpt "probability" (d.get? "probability") = .ok r.offPr := by
+  simp only [readRow, bind, Except.bind, pure, Except.pure] at h
+  repeat' split at h
+  all_goals first
+    | (simp only [Except.ok.injEq] at h; subst h; assumption)
     | cases h
 
 omit [Subscript V] in
